@@ -93,6 +93,10 @@ def generate(rng, tier):
         if arch == "a64":
             probes += [(pe_reason, pe_lo + 0x1010), (pe_reason, pe_lo + 0x1120)]
         probes += [("macho-outside", mm_lo + a) for a in (0x10, 0x800, 0xfff, mprog["end"], mprog["end"] + 0x40)]
+        # the first address BEHIND an image belongs to no module (ranges are end-exclusive), whatever the image would
+        # have said about it: images with data, with nothing mapped behind them
+        probes += [("nomodule", 0x300000 + 0x10000 * j + 0x1000) for j in range(3)]
+        probes += [("nomodule", pe_lo + 0x10000), ("nomodule", mm_lo + mprog["end"] + 0x100)]
         for reason, a in probes:
             for first in (1, 0):
                 for _ in range(2):
@@ -105,6 +109,20 @@ def generate(rng, tier):
                     s.add("newcache F")
                     ln = s.add("unwind U F %s %s %s S" % (kind, hx(addr), regs), tag="%s:%s:%d" % (arch, reason.split("-")[0], first))
                     s.meta[ln] = {"reason": reason, "first": first, "sp": sp, "fp": fp, "lr": lr, "arch": arch}
+        # the same uncovered address in both roles through ONE cache, in both orders: what is cached for it must be
+        # right for a first frame and for a caller frame alike
+        for pres, addrs in gaps.items():
+            for order in ((1, 0), (0, 1)):
+                a = rng.choice(addrs)
+                s.add("newcache F")
+                for first in order + order:
+                    sp = base + 8 * rng.range(0, 40)
+                    fp = base + 8 * rng.range(0, 90)
+                    lr = rng.choice([0x33330, 0x44440])
+                    regs = s.regs_x86(a, sp, fp) if arch == "x86" else s.regs_a64(M64, lr, sp, fp)
+                    ln = s.add("unwind U F %s %s %s S" % ("ip" if first else "ra", hx(a if first else a + 1), regs),
+                               tag="%s:gap-roles:%d%d:%d" % (arch, order[0], order[1], first))
+                    s.meta[ln] = {"reason": "gap-" + pres, "first": first, "sp": sp, "fp": fp, "lr": lr, "arch": arch}
         # frame pointer chains
         for ch in range(6):
             depth = rng.range(0, 6)
